@@ -294,6 +294,27 @@ pub fn run(tier: Tier) -> i32 {
             rep.violation(&key, || what, || json!({"kind": "build_str", "source": src, "observed": o.to_json()}));
         }
     });
+    // directives between the .device line and the instruction that might touch the device record
+    // (.csegsize with each legal value, .cseg/.dseg switches, .org): the gate stays what the row says
+    let n_after_directive = AtomicU64::new(0);
+    work.par_iter().for_each(|(d, fm)| {
+        let gone = removed_by(fm, &d.flags);
+        let c = &fm.variants[0];
+        for (bi, between) in [".csegsize 16\n", ".csegsize 10\n", ".csegsize 12\n.csegsize 14\n", ".dseg\n.cseg\n.org 0x10\n"].iter().enumerate() {
+            let src = format!(".device {}\n{}{}\n", d.name, between, c.text());
+            let o = sut::build_str(&src);
+            evals.fetch_add(1, Ordering::Relaxed);
+            n_after_directive.fetch_add(1, Ordering::Relaxed);
+            let bad = match (gone, &o) {
+                (Some(flag), Outcome::Ok(b)) => Some((format!("C13/ungated-after-directive/flag={}/form={}/device={}", flag, fm.name, d.name), format!("{} lacks `{}` (flag {}) but after `{}` it assembles to {}", d.name, fm.name, flag, between.trim().replace('\n', " / "), sut::hex_trunc(&b.code, 16)))),
+                (None, Outcome::Err(e)) if nodev.contains_key(&c.text()) => Some((format!("C13/over-rejected-after-directive/form={}/device={}/between={}", fm.name, d.name, bi), format!("{} has `{}` but after `{}` it is rejected: {}", d.name, fm.name, between.trim().replace('\n', " / "), e))),
+                _ => None,
+            };
+            if let Some((key, what)) = bad {
+                rep.violation(&key, || what, || json!({"kind": "build_str", "source": src, "observed": o.to_json()}));
+            }
+        }
+    });
     // an instruction the device has, between a jump over it and a label behind it: both passes must
     // agree on its length on every device, or the jumps around it go astray
     let n_between = AtomicU64::new(0);
@@ -442,6 +463,7 @@ pub fn run(tier: Tier) -> i32 {
         "absent_combinations_checked": absent.load(Ordering::Relaxed),
         "present_combinations_checked": present.load(Ordering::Relaxed),
         "two_instruction_programs": n_pairs.load(Ordering::Relaxed),
+        "instruction_after_csegsize_or_segment_directives_programs": n_after_directive.load(Ordering::Relaxed),
         "jumps_around_an_available_instruction_programs": n_between.load(Ordering::Relaxed),
         "device_selected_elsewhere_programs": n_select.load(Ordering::Relaxed),
         "sibling_spelling_programs": n_sibling.load(Ordering::Relaxed),
